@@ -118,3 +118,13 @@ Proof.
   destruct ((re - rs <=? 0) || (ce - cs <=? 0)); [discriminate|].
   destruct ((re - rs =? 1) && (ce - cs =? 1)); intros H; inversion H; reflexivity.
 Qed.
+
+(* put's early return: taken exactly for an EMPTY tuple/list of values, and only after a bare int has
+   been wrapped into a one-element tuple *)
+Theorem gen_put_early_return (v : list Z) :
+  put_early_return_gen true (Z.of_nat (length v)) = (match v with [] => true | _ => false end) /\
+  (forall n, put_early_return_gen false n = false) /\
+  put_int_wrapped_before_return_gen = true.
+Proof.
+  unfold put_early_return_gen. split; [destruct v; reflexivity|]. split; reflexivity.
+Qed.
